@@ -292,7 +292,12 @@ func attackRun(c *run.Ctx, r *kit.Rng, s *kit.Summary, st *kit.Stream, idx int) 
 	os.MkdirAll(dir, 0o755)
 	targets, output := filepath.Join(dir, "targets.txt"), filepath.Join(dir, "results.gob")
 	os.WriteFile(targets, []byte(strings.Join(lines, "\n")+"\n"), 0o644)
-	cmd := exec.Command(c.Vegeta, "attack", "-targets="+targets, "-rate=0", "-max-workers=1", "-workers=1", "-duration=0",
+	name := ""
+	if idx%2 == 1 {
+		name = strings.Repeat([]string{"n", "ü"}[(idx/2)%2], 118+idx%9) // a long -name travels with every result
+		s.Count("attack:long_name")
+	}
+	cmd := exec.Command(c.Vegeta, "attack", "-targets="+targets, "-rate=0", "-max-workers=1", "-workers=1", "-duration=0", "-name="+name,
 		"-timeout=60s", fmt.Sprintf("-prometheus-addr=127.0.0.1:%d", promPort), "-output="+output)
 	cmd.Env = append([]string{}, os.Environ()...) // without VEGETA_VERIF_DRIVER: the ordinary command line
 	var stderr bytes.Buffer
